@@ -106,6 +106,7 @@ func (c09) Info() core.Info {
 			"EvalOne must return, the number of context polls after firing must be <= N*(D+2) (N = tokens of the input and session function bodies, D = call depth bound), the outcome must be an error/recovered panic (or a value if the work left was within the bound), virtual sleep must return at min(now+d, deadline), and the session must evaluate a probe afterwards. " +
 			"(b) depth: MaxDepth drawn from 10..3000, recursion (direct, mutual, through closures, through eval(), deeply nested source text) must end in the recoverable max-depth failure or a value, and a recursion calibrated to MaxDepth-eps must succeed right afterwards (depth counter reset). " +
 			"(c) process survival: child worker processes (address space limited with RLIMIT_AS, GOMEMLIMIT set) evaluate programs with repetition/range/concatenation/doubling operators whose operands cross 2^31 and 2^63 through repl.EvalStringWithOption; the child must exit normally reporting a result or the memory/depth guard; death by signal, 'fatal error', or exceeding the address-space net is a violation. " +
+			"(d) no-poll family in watchdog children: unjson/eval/macro bodies and run()/exec() followed by an endless loop under a virtual deadline. (e) realtimer: the real timer of SetContext, MaxDuration 150 ms under a host context without / with later / with earlier deadline, verdict: back within 12 s. " +
 			"distinct = distinct (sub-scenario, program, outcome class, deadline bucket); non-trivial = a deadline fired strictly inside the evaluation, a depth guard fired, or an allocation was refused.",
 		Real:        []string{"evaluator context polling (evalInternal), all loop forms, applyFunction, eval.State.Eval depth guard, repl.EvalOne recover/Reset", "object.MustBeOk/SizeOk/MakeObjectSlice guards with the simulator's free-memory answer (in-process) or the real runtime reading under GOMEMLIMIT (children)", "repl.EvalStringWithOption in child processes under RLIMIT_AS"},
 		Stubbed:     append([]string{"real wall-clock latency of cancellation is not decided (no real clock by construction): the deadline is a virtual tick"}, commonStubbed...),
